@@ -243,6 +243,7 @@ pub fn replay(v: &Value) {
         "txgrid-c08" => crate::c08::replay(v),
         "txgrid-c09" => crate::c09::replay(v),
         "wirert" => crate::wirert::replay(v),
+        "velocity" => crate::velocity::replay(v),
         #[cfg(vls_verif)]
         "concur" => crate::concur::replay(v),
         _ => {
